@@ -367,7 +367,7 @@ def _units(plan):
     objs = []
     for c, ops in enumerate(plan["clients"]):
         for j, op in enumerate(ops):
-            if op["op"] in ("apply", "str", "getitem", "modules", "scan", "drop"):
+            if op["op"] in ("apply", "str", "getitem", "modules", "mapping", "scan", "drop"):
                 units.append(("op", c, j, canon(op)))
             elif op["op"] == "new" and op["obj"] not in objs:
                 objs.append(op["obj"])
